@@ -13,18 +13,30 @@ RULE = ("valid streams of every method and the small .drc files of testdata (bit
         f"{R.A_SINGLE} + {R.K_SINGLE} * (len + declared), peak of live bytes <= {R.A_PEAK} + {R.K_PEAK} * (len + declared), "
         "declared = points (+ faces / encoded vertices) read from the stream, or of the returned geometry; requests above "
         f"the cap ({R.CAP} bytes) are refused and must be within the bound. Lean model on the same bytes: status, declared "
-        "count (sequential streams), geometry; distinct op lines")
-THEOREM_BACKED = ("alloc_bounded: every event of the allocation log of decodeGeometrySeq on bs is <= 4259840 + 2048 * (bs.length + "
-                  "declared) for accepted and rejected streams (sequential decoders of every bitstream version); "
-                  "alloc_bounded_seq_stream (complete decodeGeometry on streams announcing a sequential method); "
-                  "alloc_bounded_with (dispatcher with arbitrary body decoders that keep the allocation invariant); "
-                  "alloc_bounded_undeclared; symbol_tables_bounded (tables of RAnsSymbolDecoder::Create for any bytes, as the "
-                  "function symbolAllocs of the bytes, not part of the log); num_symbols_guard; metadata_reader_is_suffix")
-CORRESPONDENCE_ONLY = ("kd-tree / Edgebreaker decoders and bitstream < 2.0 attribute decoders are outside the model: the bound "
-                       "is measured on the implementation only; the model's allocation log is an idealisation of the C++ "
-                       "allocation sites (it is tied by the declared counts and by status / geometry equality, not byte for byte)")
-EXPLANATION = ("full proof of the bound on the model of the sequential decoders; measured on the real decoders for every "
-               "method by interposing operator new")
+        "count (sequential streams), geometry; distinct op lines"
+        '; plus structure-aware corruption of every located count / descriptor / section field of small base '
+        'streams, the tamper-hook campaign (the encoder re-run with exactly one semantic value replaced) and the '
+        'regression streams of repaired findings (the kd-tree stack finding is listed as known)')
+THEOREM_BACKED = ('DracoProps.C18: alloc_bounded: every event of the allocation log of decodeGeometrySeq on bs is <= '
+                  '4259840 + 2048 * (bs.length + declared) for accepted and rejected streams (sequential decoders of every '
+                  'bitstream version); alloc_bounded_seq_stream; alloc_bounded_with (dispatcher with arbitrary body '
+                  'decoders that keep the allocation invariant); alloc_bounded_undeclared; symbol_tables_bounded (tables of'
+                  ' RAnsSymbolDecoder::Create for any bytes, as the function symbolAllocs of the bytes, not part of the '
+                  'log); num_symbols_guard; metadata_reader_is_suffix. DracoProps.C18Kd: kd_alloc_bounded (kd-tree body: '
+                  'every event within the linear bound or one of the four kd_tree_decoder members, bounded by '
+                  '128D^2+772D+24, D = 1275*length), kd_alloc_bounded_total, kd_alloc_linear_bound_false (the known finding'
+                  ' as a theorem). DracoProps.C18Eb: eb_connectivity_alloc_invariant (Edgebreaker connectivity decoder: '
+                  'linear, no exception), guard_* (one lemma per C++ guard), eb_alloc_bounded, alloc_classified (the '
+                  'COMPLETE decoder: every event within the linear bound, or kdX, or one of the four Edgebreaker sites '
+                  'ebX), decode_consumes_prefix')
+CORRESPONDENCE_ONLY = ('not proved: that the four Edgebreaker sites ebX (mesh_traversal_sequencer.point_ids, '
+                       'attribute.indices_map, attribute.Reset, integer_decoder.portable_attribute) are within the linear bound,'
+                       " and the bound on the peak of live bytes — both are measured on the implementation only; the model's "
+                       'allocation log is an idealisation of the C++ allocation sites (it is tied by the declared counts and by '
+                       'status / geometry equality, not byte for byte)')
+EXPLANATION = ('proof of the single-request bound on the decoder model: sequential decoders in full, kd-tree and '
+               'Edgebreaker bodies classified (linear bound or a named exceptional site); measured on the real decoders '
+               'for every method by interposing operator new')
 TRUSTED_EXTRA = ["harness/robust_main.cc allocation monitor (replacement operator new / delete, malloc_usable_size)",
                  "harness/ops_robust.cc declared_counts(): conservative parse of the declared element counts (tied to the model's `declared` on sequential streams)"]
 TIMEOUT = 3000
